@@ -341,6 +341,14 @@ def judge(rep, item, mrun, cmo):
                      f"path {name}: multi-process results differ from the file searched "
                      f"alone: {d}", impl=a[:40], spec=b[:40])
             return
+    if mp.get('_shared_section_ids'):
+        # "same section grouping": every file's sections are its own; an id shared by sections
+        # of two files merges them in find_sequence_by_tag / find_sequence_sections
+        rep.fail('failing-input', scn,
+                 f"section id(s) {mp['_shared_section_ids']} are carried by results of MORE THAN "
+                 "ONE file: the sequence lookups of the collection merge sections that the "
+                 "files searched alone keep apart", impl=mp['_shared_section_ids'])
+        return
     extra = set(mp['paths']) - set(alone)
     if extra:
         rep.fail('failing-input', scn, f"results filed under unknown paths {sorted(extra)}",
